@@ -43,10 +43,12 @@ def run(ctx: Context) -> None:
     from ..persist import Plumbing
     from . import c04
     ctx.rule(c04.r2_tables, Plumbing(ctx.prog))
+    before = len(ctx.undecided)
     ctx.rule(c10.run_product, ("C09",), False, c10.plans(2, 2), "bootstrap-once")
+    product_decided = len(ctx.undecided) == before
     ctx.rule(r1_round_robin)
     ctx.rule(r1_calibrate_pairing)
-    ctx.rule(r2_rl_bootstrap)
+    ctx.rule(r2_rl_bootstrap, product_decided)
     ctx.rule(r3_truth_table)
 
 
@@ -208,61 +210,85 @@ def _path_from(g: CFG, start, ends, avoid):
 
 
 # ---------------------------------------------------------------------------------------------- R2
-def r2_rl_bootstrap(ctx: Context) -> None:
+def _bootstrap_index_attr(ctx: Context) -> tuple[str, ast.Assign, str]:
+    """The attribute that receives the index returned by the bootstrap helper in RLScheduler.__init__ (with the unpacking statement and the sequence local)."""
+    prog = ctx.prog
+    init = ctx.func(f"{RL}.__init__")
+    helper_calls = [c for c in calls_in(init.node) if any(isinstance(t, FuncInfo) and t.name == "_add_or_get_bootstrap_sampler" for t in prog.resolve_call(init, c))]
+    ctx.floor("R2", "call of _add_or_get_bootstrap_sampler in __init__", len(helper_calls), 1)
+    for s in walk_scope(init.node):
+        if isinstance(s, ast.Assign) and s.value in helper_calls and isinstance(s.targets[0], ast.Tuple) and len(s.targets[0].elts) == 2:
+            a, b = s.targets[0].elts
+            if is_self_attr(b, init.self_name) and isinstance(a, ast.Name):
+                return b.attr, s, a.id  # type: ignore[union-attr]
+    raise AnalysisError(f"{init.loc(init.node)}: the (sequence, index) pair returned by _add_or_get_bootstrap_sampler is not unpacked into (local, self.<attr>); cannot decide R2")
+
+
+def r2_rl_bootstrap(ctx: Context, product_decided: bool = False) -> None:
     prog = ctx.prog
     gns = ctx.func(f"{RL}.get_next_sampler")
     g = CFG(gns.node)
     rets = returns_of(gns)
     ctx.floor("R2", "return in RLScheduler.get_next_sampler", len(rets), 2)
     n = normaliser(prog, gns)
-    boot = str(n.rat(parse_expr("self._samplers[self._halton_sampler_id]")))
-    tests = [t for t in g.live if t.kind == "test" and str(n.canon(t.ast)) in ("self._best_loss Is 'None'", "self._best_loss Is None", "self._best_loss IsNot None", "self._best_loss IsNot 'None'")]
-    ctx.check(len(tests) >= 1, "R2.guard", "RLScheduler.get_next_sampler:first-batch-test",
-              "get_next_sampler branches on `_best_loss is None`", "no `_best_loss is None` test found in get_next_sampler", gns, gns.node)
+    boot_attr, unpack, seq_name = _bootstrap_index_attr(ctx)
+    boot = str(n.rat(parse_expr(f"self._samplers[self.{boot_attr}]")))
+    # the first-batch test: `self.<X> is None` on an attribute the constructor sets to None and update() sets to a value
+    from ..sync import SyncModel
+    sm = SyncModel(prog)
+    none_attrs = {a for (o, a), v in sm.init_heap.items() if o == "sched" and v == ("K", None)}
+    tests = []
+    for t in g.live:
+        if t.kind == "test" and isinstance(t.ast, ast.Compare) and len(t.ast.ops) == 1 and isinstance(t.ast.ops[0], (ast.Is, ast.IsNot)) \
+                and isinstance(t.ast.comparators[0], ast.Constant) and t.ast.comparators[0].value is None and is_self_attr(t.ast.left, gns.self_name) \
+                and t.ast.left.attr in none_attrs:  # type: ignore[union-attr]
+            tests.append(t)
+    if not tests:
+        if product_decided:
+            ctx.ok("R2.guard", "RLScheduler.get_next_sampler:first-batch-test", "get_next_sampler does not branch on an `is None` test of a None-initialised attribute; "
+                   "that only the very first batch is a bootstrap batch is decided by the product rule (P.bootstrap-once)")
+        else:
+            raise AnalysisError(f"{gns.loc(gns.node)}: get_next_sampler has no `self.<attr> is None` first-batch test and the product rule did not decide; cannot decide R2.guard")
+    else:
+        guard = tests[0].ast.left.attr  # type: ignore[union-attr]
+        upd = prog.lookup_method(prog.find_class("RLScheduler"), "update")
+        set_in_update = upd is not None and any(is_self_attr(el, upd.self_name, guard) for s_ in walk_scope(upd.node) if isinstance(s_, (ast.Assign, ast.AnnAssign))
+                                                for el in (s_.targets if isinstance(s_, ast.Assign) else [s_.target]))
+        ctx.check(set_in_update, "R2.guard", "RLScheduler.get_next_sampler:first-batch-test", f"get_next_sampler branches on `{guard} is None`, which update() sets",
+                  f"the first-batch test reads `{guard}`, which update() never sets: every batch looks like the first", gns, tests[0].ast)
     for r in rets:
         node = g.nodes_of(r)[0] if g.nodes_of(r) else None
-        if node is None:
+        if node is None or not tests:
             continue
         got = str(n.rat(r.value)) if r.value is not None else "None"
         deps = g.control_closure(node)
         first_batch = None
         for t, lab in deps:
             if t in tests:
-                is_none = "IsNot" not in n.canon(t.ast)
+                is_none = isinstance(t.ast.ops[0], ast.Is)  # type: ignore[union-attr]
                 first_batch = (lab == "true") == is_none
         if first_batch is None:
             ctx.fail("R2.guard", f"RLScheduler.get_next_sampler:return:{got}", "a return of get_next_sampler is not controlled by the first-batch test", gns, r)
             continue
         if first_batch:
             ctx.check(got == boot, "R2.bootstrap", "RLScheduler.get_next_sampler:first-batch-return",
-                      "first batch returns samplers[_halton_sampler_id]", f"first batch returns {got}, expected {boot}", gns, r)
+                      "first batch returns samplers[<index of the bootstrap sampler>]", f"first batch returns {got}, expected {boot}", gns, r)
         else:
             ok = isinstance(r.value, ast.Subscript) and str(n.rat(r.value.value)) == "self._samplers"
             idx = r.value.slice if isinstance(r.value, ast.Subscript) else None
-            from_queue = idx is not None and _comes_from_queue_get(gns, n, idx)
+            from_queue = idx is not None and _comes_from_queue_get(gns, n, idx, {a for (o, a) in sm.queue_of if o == "sched"})
             ctx.check(ok and from_queue, "R2.later", "RLScheduler.get_next_sampler:later-return",
                       "later batches return samplers[<index received from the agent's action queue>]",
                       f"later batches return {got}", gns, r)
-    # _halton_sampler_id is stored once, from the bootstrap helper, together with the sampler sequence passed on
+    # the bootstrap index is stored once, from the bootstrap helper, together with the sampler sequence passed on
     cls = prog.find_class("RLScheduler")
-    stores = prog.attr_stores(cls, inherited=False).get("_halton_sampler_id", [])
-    ctx.check(len(stores) == 1 and stores[0][0].name == "__init__", "R2.index-store", "RLScheduler._halton_sampler_id:stores",
-              "_halton_sampler_id is stored exactly once, in __init__", f"_halton_sampler_id has {len(stores)} stores", None, None)
+    stores = prog.attr_stores(cls, inherited=False).get(boot_attr, [])
+    ctx.check(len(stores) == 1 and stores[0][0].name == "__init__", "R2.index-store", "RLScheduler.bootstrap-index:stores",
+              f"{boot_attr} is stored exactly once, in __init__", f"{boot_attr} has {len(stores)} stores", None, None)
     init = ctx.func(f"{RL}.__init__")
-    helper_calls = [c for c in calls_in(init.node) if any(isinstance(t, FuncInfo) and t.name == "_add_or_get_bootstrap_sampler" for t in prog.resolve_call(init, c))]
-    ctx.floor("R2", "call of _add_or_get_bootstrap_sampler in __init__", len(helper_calls), 1)
-    seq_name = None
-    for s in walk_scope(init.node):
-        if isinstance(s, ast.Assign) and s.value in helper_calls and isinstance(s.targets[0], ast.Tuple) and len(s.targets[0].elts) == 2:
-            a, b = s.targets[0].elts
-            if is_self_attr(b, init.self_name, "_halton_sampler_id") and isinstance(a, ast.Name):
-                seq_name = a.id
-                arg_ok = len(s.value.args) == 1 and isinstance(s.value.args[0], ast.Name) and s.value.args[0].id == "samplers"
-                ctx.check(arg_ok, "R2.index-store", "RLScheduler.__init__:helper-arg", "the helper receives the `samplers` parameter",
-                          f"helper called with {src(s.value)}", init, s)
-    ctx.check(seq_name is not None, "R2.index-store", "RLScheduler.__init__:unpack",
-              "(sequence, index) of the helper are unpacked into (local, self._halton_sampler_id)",
-              "the helper's result is not unpacked as (sequence, self._halton_sampler_id)", init, init.node)
+    arg_ok = len(unpack.value.args) == 1 and isinstance(unpack.value.args[0], ast.Name) and unpack.value.args[0].id in init.params  # type: ignore[attr-defined]
+    ctx.check(arg_ok, "R2.index-store", "RLScheduler.__init__:helper-arg", "the helper receives the `samplers` parameter",
+              f"helper called with {src(unpack.value)}", init, unpack)
     sup = [c for c in calls_in(init.node) if isinstance(c.func, ast.Attribute) and c.func.attr == "__init__" and isinstance(c.func.value, ast.Call) and dotted(c.func.value.func) == "super"]
     ok = bool(sup) and sup[0].args and isinstance(sup[0].args[0], ast.Name) and sup[0].args[0].id == seq_name
     ctx.check(ok, "R2.index-store", "RLScheduler.__init__:super-arg",
@@ -276,9 +302,9 @@ def r2_rl_bootstrap(ctx: Context) -> None:
     _bootstrap_helper(ctx)
 
 
-def _comes_from_queue_get(f: FuncInfo, n, idx: ast.expr) -> bool:
+def _comes_from_queue_get(f: FuncInfo, n, idx: ast.expr, queue_attrs: set[str]) -> bool:
     text = str(n.rat(idx))
-    return text in ("self._in_queue.get()",) or text.startswith("self._in_queue.get(")
+    return any(text.startswith(f"self.{q}.get(") for q in queue_attrs)
 
 
 def _bootstrap_helper(ctx: Context) -> None:
